@@ -84,7 +84,7 @@ pub fn path_json(path: &[ResultNode]) -> Value {
             let wi = info.borrow_data();
             json!({
                 "b": n.begin(), "e": n.end(), "bb": n.begin_bytes(), "eb": n.end_bytes(),
-                "wid": n.word_id().as_raw(), "total": n.total_cost(),
+                "wid": n.word_id().as_raw(), "dic": n.word_id().dic(), "word": n.word_id().word(), "total": n.total_cost(),
                 "lid": n.left_id(), "rid": n.right_id(), "cost": n.cost(),
                 "pos": wi.pos_id, "hwl": wi.head_word_length,
                 "surface": cps(info.surface()), "norm": cps(info.normalized_form()),
